@@ -1782,3 +1782,52 @@ func lemmaSliceConcat(seq Sequence, c int) Sequence {
 //@   loop 1: invariant forall k in 0..i: rvalOf(rr[k]) == resizeId(ORIG(k), mod)
 //@   loop 1: invariant forall k in i..len(rr): rvalOf(rr[k]) == ORIG(k)
 //@   loop 1: decreases len(rr) - i
+
+// ---------------------------------------------------------------------------
+// Strands (C19): CheckStrand is a deterministic function of the location (strandOf); leaf
+// locations are forward, a complement is reverse, a join/order is forward or reverse when all
+// its parts are and mixed otherwise.  The two filters accept exactly one strand each.
+//@ spec func strandOf(l Location) int uninterpreted
+//@ func CheckStrand(loc Location) (s Strand)
+//@   trusted recursive over nested locations: assumed to terminate and to be a deterministic function of its argument; which function is proved by the case contracts CheckStrand@leaf/@complement and checkStrand
+//@   ensures int(s) == strandOf(loc) && 0 <= int(s) && int(s) <= 2
+//@   assigns nothing
+//@ func CheckStrand@leaf(loc Location) (s Strand)
+//@   prop C19
+//@   requires isLeaf(loc)
+//@   ensures s == StrandForward
+//@ func CheckStrand@complement(loc Location) (s Strand)
+//@   prop C19
+//@   requires is(loc, Complemented)
+//@   ensures s == StrandReverse
+//@ func checkStrand(ll []Location) (s Strand)
+//@   prop C19
+//@   ensures forward: s == StrandForward <==> (forall k in 0..len(ll): strandOf(ll[k]) == int(StrandForward))
+//@   ensures reverse: s == StrandReverse <==> (!(forall k in 0..len(ll): strandOf(ll[k]) == int(StrandForward)) && (forall k in 0..len(ll): strandOf(ll[k]) == int(StrandReverse)))
+//@   assigns nothing
+//@   loop 1: invariant 0 <= f && 0 <= r
+//@   loop 1: invariant r == 0 <==> (forall k in 0..idx1: strandOf(ll[k]) == int(StrandForward))
+//@   loop 1: invariant f == 0 <==> (forall k in 0..idx1: strandOf(ll[k]) == int(StrandReverse))
+//@   loop 1: decreases len(ll) - idx1
+//@ func ForwardStrand(f Feature) (r bool)
+//@   prop C19
+//@   ensures r <==> strandOf(f.Loc) == int(StrandForward)
+//@   assigns nothing
+//@ func ReverseStrand(f Feature) (r bool)
+//@   prop C19
+//@   ensures r <==> strandOf(f.Loc) == int(StrandReverse)
+//@   assigns nothing
+
+// The complement of a join or an order wraps it; the parts are not touched.
+//@ func (joined Joined) Complement() (out Location)
+//@   prop C05
+//@   ensures is(out, Complemented) && is(out.(Complemented).Location, Joined) && sameslice(out.(Complemented).Location.(Joined), joined)
+//@   assigns nothing
+//@ func (ordered Ordered) Complement() (out Location)
+//@   prop C05
+//@   ensures is(out, Complemented) && is(out.(Complemented).Location, Ordered) && sameslice(out.(Complemented).Location.(Ordered), ordered)
+//@   assigns nothing
+//@ func (ambiguous Ambiguous) Complement() (out Location)
+//@   prop C05
+//@   ensures is(out, Complemented) && is(out.(Complemented).Location, Ambiguous) && out.(Complemented).Location.(Ambiguous) == ambiguous
+//@   assigns nothing
